@@ -165,7 +165,7 @@ def padded_starttls(rng, target):
 
 def gen_one(rng):
     cfg = config(rng)
-    fam = rng.choice(['clean'] * 4 + ['suffix'] * 4 + ['split', 'boundary', 'later', 'later', 'later', 'refused-hello', 'close', 'intls', 'nocert', 'helo'])
+    fam = rng.choice(['clean'] * 4 + ['suffix'] * 4 + ['split', 'boundary', 'later', 'later', 'later', 'refused-hello', 'close', 'intls', 'nocert', 'helo', 'certname'])
     pre = prehistory(rng)
     if fam == 'clean':
         items = [S(c) for c in pre] + [S(b'STARTTLS\r\n'), H] + tls_session(rng)
@@ -215,6 +215,14 @@ def gen_one(rng):
         items = [S(c) for c in pre] + [S(b'STARTTLS\r\n')] + ([S(rng.choice([b'a', b'ab', b'abcd']))] if rng.random() < 0.3 else []) + [C]
     elif fam == 'intls':
         items = [S(EHLO), S(b'STARTTLS\r\n'), H, S(rng.choice([b'STARTTLS\r\n', EHLO + b'STARTTLS\r\n', EHLO])), S(b'STARTTLS\r\n'), H] + tls_session(rng)
+    elif fam == 'certname':
+        # the certificate under its per-address names; EHLO given several times (find_servercert runs once per EHLO)
+        cfg = config(rng, rng.choice(['good', 'good', 'bad'])) + ';certname=' + rng.choice(['ip', 'ipport', 'ipport'])
+        if 'ip=v6' in cfg and rng.random() < 0.7:
+            cfg += ';localip=long'
+        k = rng.choice([1, 2, 2, 3, 4])
+        greet = [rng.choice([EHLO, b'EHLO x\r\n', b'HELO x\r\n', b'RSET\r\n']) for _ in range(k - 1)] + [EHLO]
+        items = [S(c) for c in greet] + [S(b'STARTTLS\r\n'), H] + tls_session(rng)
     elif fam == 'nocert':
         cfg = config(rng, rng.choice(['none', 'bad']))
         items = [S(c) for c in pre] + [S(b'STARTTLS\r\n'), rng.choice([H, S(b'NOOP\r\n')])] + [S(c) for c in transaction(rng)]
@@ -233,24 +241,35 @@ def nontrivial(case, c_out):
 
 
 def distribution(results):
-    d = dict(switched=0, handshake_refused_by_client_view=0, pending_cleartext_503=0, garbage_454=0, unmodelled=0, tls_replies=0,
-             starttls_refused_in_tls=0, offers=0, handoffs_in_tls=0, handoffs_clear=0, closed=0, simple_cases=0)
+    d = dict(switched=0, handshake_refused_by_client_view=0, cleartext_suffix_same_segment=0, suffix_cases_that_switched=0, garbage_454=0,
+             unmodelled=0, tls_replies=0, starttls_refused_in_tls=0, offers=0, handoffs_in_tls=0, handoffs_clear=0, closed=0,
+             judged_by_trace_checker=0)
     for r in results:
         t = r['c'].split()
+        suffix = False
+        for x in r['case'].split()[2:]:
+            b = bytes.fromhex(x)
+            i = b.upper().find(b'STARTTLS\r\n')
+            if b[:1] == b'S' and i >= 0 and len(b) > i + 10:
+                suffix = True
+        if suffix: d['cleartext_suffix_same_segment'] += 1
         if 'S' in t:
             d['switched'] += 1
             d['tls_replies'] += sum(1 for x in t if x.startswith('t'))
+            if suffix: d['suffix_cases_that_switched'] += 1
         if 'F' in t: d['handshake_refused_by_client_view'] += 1
         if 'U' in t: d['unmodelled'] += 1
         for i, x in enumerate(t):
-            if x == 'c220' and i > 0 and i + 1 < len(t):
-                if t[i + 1] == 'c454': d['garbage_454'] += 1
+            if x == 'c220' and i > 0 and i + 1 < len(t) and t[i + 1] == 'c454': d['garbage_454'] += 1
+        if 'S' in t: d['starttls_refused_in_tls'] += t[t.index('S'):].count('t503')
         d['offers'] += t.count('O')
         for x in t:
-            if x.startswith('Q'):
-                if b'ESMTPS' in bytes.fromhex(x.split('/')[1] if x.split('/')[1] != '-' else ''):
+            if x.startswith('Q') and '/' in x:
+                m = x.split('/')[1]
+                if b'ESMTPS' in (bytes.fromhex(m) if m != '-' else b''):
                     d['handoffs_in_tls'] += 1
                 else:
                     d['handoffs_clear'] += 1
         if t and t[-1] == 'closed': d['closed'] += 1
+        if r.get('spec') == 'ok+trace': d['judged_by_trace_checker'] += 1
     return d
